@@ -169,12 +169,26 @@ def addMissing (all : List (Addr × WAddr)) : List Addr → List (Addr × WAddr)
 /-- the three lines that make a peer verified, plus the service-cache invalidation that follows them -/
 def Net.verifyNew (s : Net) (p : Peer) : Net :=
   { s with g := { s.g with verified := s.g.verified ++ [p] },
-           byKey := aset p.key s.nextGen s.byKey,
+           byKey := if Gen.addSetsIndex then aset p.key s.nextGen s.byKey else s.byKey,
            vgen := aset p.key s.nextGen s.vgen,
            nextGen := s.nextGen + 1,
-           svcCache := s.svcCache.filter (fun e => !s.g.hasService p.key e.1) }
+           svcCache := if Gen.addInvalidatesServiceCache then s.svcCache.filter (fun e => !s.g.hasService p.key e.1)
+                       else s.svcCache }
 
 def Net.addVerified (s : Net) (p : Peer) : Net :=
+  match Gen.addBranch (decide (p.key ∈ s.g.blMid)) (s.known p.key) (p.addrList.any (fun a => s.g.knownAddr a))
+      (p.addrList.all (fun a => !decide (a ∈ s.g.blAddr))) with
+  | 0 => s
+  | 1 => s.updateStored p.key p.addrs
+  | 2 => if p.key ∈ s.g.keys then s else s.verifyNew p
+  | 3 =>
+    let s1 := { s with g := { s.g with allAddr := addMissing s.g.allAddr p.addrList } }
+    if p.key ∈ s.g.keys then s1 else s1.verifyNew p
+  | _ => s
+
+/-- reference form of `addVerified` with the guard chain written out (what the proofs work on; `addVerified_eq`
+    shows that the generated chain `Gen.addBranch` selects the same branch) -/
+def Net.addVerifiedRef (s : Net) (p : Peer) : Net :=
   if p.key ∈ s.g.blMid then s
   else if s.known p.key then s.updateStored p.key p.addrs
   else if p.addrList.any (fun a => s.g.knownAddr a) then
@@ -187,11 +201,12 @@ def Net.addVerified (s : Net) (p : Peer) : Net :=
 /-- `address not in _all_addresses or _all_addresses[address].introduced_by not in verified_by_public_key_bin`
     ("this is a new address, or our previous parent has been removed") -/
 def needsIntro (all : List (Addr × WAddr)) (known : Key → Bool) (a : Addr) : Bool :=
-  match aget a all with
-  | none => true
-  | some w => match w.intro with
-    | none => true
-    | some k => !known k
+  let introducerInIndex : Bool := match aget a all with
+    | some w => (match w.intro with
+      | some k => known k
+      | none => false)      -- `b""` is never a key of the index
+    | none => false         -- not evaluated in Python (short-circuit); the guard does not depend on it then
+  Gen.needsIntroCond (aget a all).isSome introducerInIndex
 
 /-- record `address` as introduced by `k`; a cached introduction list of `k` is extended, none is created -/
 def Net.introduce (s : Net) (k : Key) (a : Addr) (svc : Option Svc) (newStyle : Bool) : Net :=
@@ -222,21 +237,23 @@ def Net.bury (s : Net) (gone : List Peer) : List (Nat × Peer) :=
   s.graveyard ++ gone.map (fun q => (s.genOf q.key, q))
 
 def Net.removePeer (s : Net) (p : Peer) : Net :=
-  { s with g := { s.g with allAddr := s.g.allAddr.filter (fun e => !p.hasAddr e.1),
-                           verified := s.g.verified.filter (fun q => !decide (q.key = p.key)),
-                           services := adel p.key s.g.services },
-           byKey := adel p.key s.byKey,
-           vgen := adel p.key s.vgen,
-           graveyard := s.bury (s.g.verified.filter (fun q => decide (q.key = p.key))) }
+  let inSet := Gen.rmpRemovesFromSet
+  { s with g := { s.g with allAddr := if Gen.rmpPopsAddresses then s.g.allAddr.filter (fun e => !p.hasAddr e.1) else s.g.allAddr,
+                           verified := if inSet then s.g.verified.filter (fun q => !decide (q.key = p.key)) else s.g.verified,
+                           services := if Gen.rmpPopsServices then adel p.key s.g.services else s.g.services },
+           byKey := if Gen.rmpPopsIndex then adel p.key s.byKey else s.byKey,
+           vgen := if inSet then adel p.key s.vgen else s.vgen,
+           graveyard := if inSet then s.bury (s.g.verified.filter (fun q => decide (q.key = p.key))) else s.graveyard }
 
 def Net.removeByAddress (s : Net) (a : Addr) : Net :=
-  let gone : List Key := (s.g.verified.filter (fun q => q.hasAddr a)).map (·.key)
-  { s with g := { s.g with allAddr := adel a s.g.allAddr,
-                           verified := s.g.verified.filter (fun q => !q.hasAddr a),
+  let gone : List Key := (s.g.verified.filter (fun q => !Gen.rmaKeep (q.hasAddr a))).map (·.key)
+  let inSet := Gen.rmaReplacesSet
+  { s with g := { s.g with allAddr := if Gen.rmaPopsAddress then adel a s.g.allAddr else s.g.allAddr,
+                           verified := if inSet then s.g.verified.filter (fun q => Gen.rmaKeep (q.hasAddr a)) else s.g.verified,
                            services := s.g.services.filter (fun e => !decide (e.1 ∈ gone)) },
-           byKey := s.byKey.filter (fun e => !decide (e.1 ∈ gone)),
-           vgen := s.vgen.filter (fun e => !decide (e.1 ∈ gone)),
-           graveyard := s.bury (s.g.verified.filter (fun q => q.hasAddr a)) }
+           byKey := if Gen.rmaPopsIndex then s.byKey.filter (fun e => !decide (e.1 ∈ gone)) else s.byKey,
+           vgen := if inSet then s.vgen.filter (fun e => !decide (e.1 ∈ gone)) else s.vgen,
+           graveyard := if inSet then s.bury (s.g.verified.filter (fun q => !Gen.rmaKeep (q.hasAddr a))) else s.graveyard }
 
 /-! ### snapshot codec (`default_serializer.pack/unpack("address", …)`) -/
 def beEnc : Nat → Nat → Bytes
@@ -321,9 +338,12 @@ def zeroAddr : Addr := ⟨4, [0, 0, 0, 0], 0⟩
 
 /-- the addresses snapshot() writes, in `verified_peers` order (a Python set: the real order is unspecified) -/
 def Graph.snapshotAddrs (g : Graph) : List Addr :=
-  g.verified.filterMap (fun p => match p.preferred with
-    | some a => if a = zeroAddr then none else some a
-    | none => none)
+  g.verified.filterMap (fun p =>
+    -- `peer.address` is never falsy (it falls back to UDPv4Address("0.0.0.0", 0)); having no address shows as that value
+    let isZero : Bool := match p.preferred with
+      | some a => decide (a = zeroAddr)
+      | none => true
+    if Gen.snapshotKeep true isZero then p.preferred else none)
 
 def Graph.snapshot (g : Graph) : Bytes := (g.snapshotAddrs.map encodeAddr).flatten
 
@@ -343,7 +363,8 @@ def Net.chooseByAddr (s : Net) (a : Addr) (hint : Option Key) : Option Peer :=
     | some (k, gen) =>
       -- `peer = cache.pop(address)`; stale unless the index still holds this very object and it still has the address
       match s.deref k gen with
-      | some obj => if aget k s.byKey = some gen ∧ a ∈ obj.addrList then some obj else none
+      | some obj =>
+        if Gen.ipEntryStale true (decide (aget k s.byKey = some gen)) (decide (a ∈ obj.addrList)) then none else some obj
       | none => none
     | none => none
   match hinted with
@@ -369,14 +390,15 @@ def Net.peersForService (s : Net) (sv : Svc) : List Peer × Net :=
   let cache1 := adel sv s.svcCache
   let out : List Peer := match aget sv s.svcCache with
     | none => s.g.verified.filter (fun p => s.g.hasService p.key sv)
-    | some l => (l.filter (fun k => decide (k ∈ s.g.keys) && s.g.hasService k sv)).filterMap (fun k => s.g.find k)
+    | some l => (l.filter (fun k => Gen.svcHitKeep (decide (k ∈ s.g.keys)) (s.g.hasService k sv))).filterMap
+                  (fun k => s.g.find k)
   (out, { s with svcCache := lruPut cache1 sv (out.map (·.key)) s.svcCap })
 
 def Graph.walkFilter (g : Graph) (sv : Svc) (oldStyle : Bool) (a : Addr) : Bool :=
   match aget a g.allAddr with
   | none => false
   | some w =>
-    if oldStyle && w.newStyle then false
+    if Gen.walkSkip oldStyle w.newStyle then false
     else
       let fromIntro : Bool := match w.intro with
         | some k => g.hasService k sv
@@ -400,8 +422,8 @@ def Net.walkable (s : Net) (svc : Option Svc) (oldStyle : Bool) : List Addr × N
 
 def Graph.introducedBy (g : Graph) (k : Key) (a : Addr) : Bool :=
   match aget a g.allAddr with
-  | some w => decide (w.intro = some k)
-  | none => false
+  | some w => Gen.introHitKeep true (decide (w.intro = some k))
+  | none => Gen.introHitKeep false false
 
 def Net.introsFrom (s : Net) (k : Key) : List Addr × Net :=
   match aget k s.introCache with
